@@ -593,7 +593,7 @@ class Trace(list):
         list.append(self, item)
 
 
-def run(spec, obs='light', clean_globals=True, check_args=False):
+def run(spec, obs='light', clean_globals=True, check_args=False, reuse_args=None):
     """Runs one session. Returns dict(result, error, trace, final, orders)."""
     import signal
     import threading
@@ -607,6 +607,21 @@ def run(spec, obs='light', clean_globals=True, check_args=False):
     rec.install()
     CURRENT[0] = ctx
     config, routes, data, candles, warm = build_args(spec, ctx)
+    if reuse_args is not None:
+        # the caller keeps its route / data-route list objects (and the dicts in them) from an earlier call and edits them in place
+        for new_list, key in ((routes, 'routes'), (data, 'data_routes')):
+            old_list = reuse_args.get(key)
+            if isinstance(old_list, list):
+                while len(old_list) > len(new_list):
+                    old_list.pop()
+                for i, d in enumerate(new_list):
+                    if i < len(old_list):
+                        old_list[i].clear()
+                        old_list[i].update(d)
+                    else:
+                        old_list.append(d)
+        routes = reuse_args['routes'] if isinstance(reuse_args.get('routes'), list) else routes
+        data = reuse_args['data_routes'] if isinstance(reuse_args.get('data_routes'), list) else data
     CUR_EX[0] = config['exchange']
     if clean_globals:
         # The harness isolates sessions from each other (C11 is the property that checks jesse doing so itself).
